@@ -230,6 +230,17 @@ func runC17SIDs(c *mon.Case) {
 		if kd != ka {
 			c.Shard.Violate("key-sid-depends-on-passphrase", "after pairing the SID changes with the passphrase", nil)
 		}
+		// a signer that fails: no identifier may be produced (a constant
+		// fallback would make unrelated sessions share their streams)
+		f1 := &eng.FlakySigner{PrivKeyECDH: keyA, Fail: true}
+		f2 := &eng.FlakySigner{PrivKeyECDH: keyC, Fail: true}
+		x1, e1 := mailbox.NewConnData(f1, keyB.PubKey(), pass, nil, nil, nil).SID()
+		x2, e2 := mailbox.NewConnData(f2, keyB.PubKey(), p2, nil, nil, nil).SID()
+		if e1 == nil && e2 == nil && x1 == x2 {
+			c.Shard.Violate("sid-collision-on-signer-failure", "two unrelated paired sessions whose key operation fails derive the same session id instead of an error", nil)
+		} else if e1 == nil && x1 != ka {
+			c.Shard.Violate("sid-wrong-on-signer-failure", "a failing key operation yields a session id that differs from the peer's instead of an error", nil)
+		}
 		// per direction
 		for _, sid := range [][64]byte{sa, ka} {
 			s2c, c2s := mailbox.GetSID(sid, true), mailbox.GetSID(sid, false)
